@@ -1,5 +1,6 @@
 import RactorModel.Model.Election
 import RactorModel.Model.Handshake
+import RactorModel.Model.Listener
 import Driver.Common
 
 /-! Driver for the `Election` model (C18).
@@ -17,6 +18,10 @@ ops (written by the harness after executing them on the real code):
   `visible`                                          → sorted pids GetSessions would list
   `hs <nameA> <nameB> <aInit:nonce:idA:idB,…>`        → `ok`   (two NodeServerStates, `Model/Handshake.lean`)
   `hauthA|hauthB|hpreA|hpreB|hseeA|hseeB <id>`, `hend` → `OA[open] OB[open] VA[listed] VB[listed]`
+  `lsn <a|b> acc=<c…|-> dial=<c…|-> refused=<n>`     → `errs=<n> server=<c…|-> client=<c…|->`
+      (real TCP engine, `Model/Listener.lean`: connections made to that node's real listener, connections it
+      dialled with `client_connect` returning Ok, connects to a dead port; impl: how many of those returned
+      Err, and the sessions the node opened (`node_session_opened`) with is_server true / false, in order)
 -/
 
 namespace Driver.C18
@@ -209,6 +214,37 @@ def stepNS (st : NS) (op impl : String) : NS × StepOut :=
       | _ => (["unparsable"], true)
     (st, { model := if dirOk then impl else "model: survivor must be a dial of the node whose name sorts last",
            oracle := orc, nontrivial := decide (ds.length > 1) })
+  | ["lsn", _node, acc, dial, refused] =>
+    -- the real accept loop / client connect against `Model/Listener.lean`: run the model on the events
+    -- the harness caused and compare the sessions it predicts with the ones the node opened
+    let parseIdx (s : String) : Option (List Nat) :=
+      if s == "-" then some [] else (splitOnChar s ',').mapM (fun x => (x.drop 1).toString.toNat?)
+    let fld (k : String) (l : String) : Option String :=
+      (words l).findSome? fun w => if w.startsWith (k ++ "=") then some (w.drop (k.length + 1)).toString else none
+    let f (l : List Nat) := if l.isEmpty then "-" else ",".intercalate (l.map (fun i => s!"c{i}"))
+    match (fld "acc" (acc ++ " " ++ dial ++ " " ++ refused)).bind parseIdx,
+          (fld "dial" (acc ++ " " ++ dial ++ " " ++ refused)).bind parseIdx,
+          (fld "refused" (acc ++ " " ++ dial ++ " " ++ refused)).bind String.toNat? with
+    | some acc, some dial, some refused =>
+      -- model: one accept / connect event per connection in index order, the refused connects, then drain;
+      -- ghost connection numbers are positions in that order
+      let order := (acc ++ dial).mergeSort (· ≤ ·)
+      let evs : List Listener.Ev := order.map (fun i => if acc.contains i then .accept .ok else .connect .ok) ++
+        List.replicate refused (.connect .refused)
+      let m := Listener.drain (Listener.run {} evs)
+      let back (l : List Nat) : List Nat := l.filterMap (fun j => order[j]?)
+      let mSrv := back (Listener.serverSessions m)
+      let mCli := back (Listener.clientSessions m)
+      let orc := match (fld "errs" impl).bind String.toNat?, (fld "server" impl).bind parseIdx, (fld "client" impl).bind parseIdx with
+        | some errs, some srv, some cli =>
+          (if Listener.ok acc.length dial.length refused errs srv.length cli.length then [] else ["listener-sessions-differ-from-connections"]) ++
+          (if srv.mergeSort (· ≤ ·) == acc.mergeSort (· ≤ ·) then [] else ["accepted-connection-without-exactly-one-server-session"]) ++
+          (if cli.mergeSort (· ≤ ·) == dial.mergeSort (· ≤ ·) then [] else ["dialled-connection-without-exactly-one-client-session"]) ++
+          (if errs == refused then [] else ["refused-connect-not-reported"])
+        | _, _, _ => ["unparsable"]
+      (st, { model := s!"errs={m.connectErrs} server={f (mSrv.mergeSort (· ≤ ·))} client={f (mCli.mergeSort (· ≤ ·))}",
+             oracle := orc, nontrivial := decide (acc.length + dial.length > 1) })
+    | _, _, _ => (st, { model := "bad-op" })
   | ["e2r", _nameA, _nameB, d1, d2, _by] =>
     -- session death, cleanup and re-election on reconnection (real handlers): k1 connections converge;
     -- the link's session dies on one node => at rest nobody lists anything of it; k2 fresh dials
@@ -375,7 +411,7 @@ def step (ds : DS) (op impl : String) : DS × StepOut :=
     let orc := if residueOk ds.closed (fld "ns") (fld "ids") (fld "auth") then [] else ["closed-session-left-residue"]
     ({ ds with ns := ns' }, { out with oracle := out.oracle ++ orc, nontrivial := !ds.closed.isEmpty })
   | "fresh" :: _ => ({ ds with ns := ns' }, out)
-  | "visible" :: _ | "checkc" :: _ | "checks" :: _ | "elect" :: _ | "world" :: _ | "e2e" :: _ | "e2t" :: _ | "e2r" :: _ | "ni" :: _ | "postauth" :: _ => ({ ds with ns := ns' }, out)
+  | "visible" :: _ | "checkc" :: _ | "checks" :: _ | "elect" :: _ | "world" :: _ | "e2e" :: _ | "e2t" :: _ | "e2r" :: _ | "lsn" :: _ | "ni" :: _ | "postauth" :: _ => ({ ds with ns := ns' }, out)
   | ["ns", _] => ({ ns := ns', readyImpl := [], closed := [] }, out)
   | _ => ({ ds with ns := ns', readyImpl := [] }, out)
 
